@@ -71,8 +71,11 @@ int __wrap_munmap(void* addr, size_t len) {
 
 int __wrap_fstatvfs(int fd, struct statvfs* st) {
     const int rc = __real_fstatvfs(fd, st);
-    if (rc == 0 && sim::active() && sim::g_no_space_at >= 0) {
-        if (sim::g_statvfs_calls++ == sim::g_no_space_at) {
+    if (rc == 0 && sim::active()) {
+        // the free space the library sees is part of the simulated environment, not of the machine the check runs on
+        st->f_bsize = 4096;
+        st->f_bavail = 1ULL << 30;   // 4 TiB free
+        if (sim::g_no_space_at >= 0 && sim::g_statvfs_calls++ == sim::g_no_space_at) {
             st->f_bavail = 1; // one block left
             sim::fault_fired("file system reports no space");
         }
